@@ -229,6 +229,8 @@ type Gen struct {
 	ConstConds bool
 	// samples whose time stamps go backwards
 	LateStamps bool
+	// member names that differ only by the case of their letters
+	CaseNames bool
 }
 
 func (g *Gen) pick(xs []string) string { return xs[g.R.Intn(len(xs))] }
@@ -332,6 +334,9 @@ func (g *Gen) Config() *Config {
 	}
 	nm := 1 + g.R.Intn(g.MaxMembers)
 	names := []string{"al", "bo", "cy", "di"}
+	if g.CaseNames && g.R.Intn(3) == 0 {
+		names = []string{"Al", "al", "BO", "bo"}
+	}
 	nvar := 0
 	early := -1
 	if nm > 1 && g.R.Intn(3) == 0 {
